@@ -194,8 +194,30 @@ Merge(S, target, cls, fr) ==
                                      THEN @ \cup {[fn |-> m.fn, dig |-> n.mfh, uuid |-> n.mfu]}
                                      ELSE @])
 
+(* Opening an *older* file set of a record (the files that existed after an   *)
+(* earlier commit: a proper prefix of the committed chain) by explicit list:   *)
+(* read-only it opens (and is closed again by the action); for writing the     *)
+(* next patch would have the name of a container that already exists, so the   *)
+(* open must be refused.  Either way nothing on disk may change.               *)
+OpenOlderSet(S, mode, rname, k) ==
+    LET F == Files(S.disk, rname)
+        pre == {c \in F : c.idx < k} IN
+    IF S.h.open \/ pre = {} \/ pre = F \/ mode \notin {"r", "r+", "a"} THEN Refuse(S)
+    ELSE IF mode = "r" THEN Accept(S) ELSE Refuse(S)
+
+(* delete_files(name): removes every container of exactly that record (class  *)
+(* method; the protocol model applies it only while no handle is open)         *)
+DeleteFiles(S, rname) ==
+    IF S.h.open THEN Refuse(S)
+    ELSE Accept([S EXCEPT !.disk = @ \ Files(@, rname)])
+
+(* list_records(dir): the names of the records that have files in the directory *)
+ListRecords(S) == {c.fn[1] : c \in S.disk}
+
 Step(S, a) ==
     CASE a.op = "open"         -> Open(S, a.mode, a.rname, a.bylist, a.cls, a.fr)
+      [] a.op = "delete_files" -> DeleteFiles(S, a.rname)
+      [] a.op = "open_older"   -> OpenOlderSet(S, a.mode, a.rname, a.k)
       [] a.op = "create_patch" -> CreatePatch(S, a.fr)
       [] a.op = "write"        -> Write(S, a.fr)
       [] a.op = "commit"       -> Commit(S, a.cls, a.fr)
